@@ -1,4 +1,5 @@
 import TcVerif.Model.Store
+import TcVerif.Proofs.SrcGetUuid
 /-!
 # C16 — SQLite and in-memory storage are observationally equivalent and persistent  *(partial)*
 
@@ -205,5 +206,9 @@ theorem C16_rows_set_vec (r : WsRows) (i : Nat) (x : Option Nat) (j : Nat) :
       have hij : (i == j) = false := by simp only [beq_eq_false_iff_ne]; exact fun e => h e.symm
       simp only [rowsSet, h, if_false, List.find?_append, rows_find?_filter_ne r i j h, List.find?_cons, hij,
         List.find?_nil, Option.or_none]
+
+/-- the task an operation belongs to (what `get_task_operations` and the purge in `sync_complete`
+    select by) is the source's `Operation::get_uuid`, regenerated from `src/operation.rs` on every run -/
+theorem C16_source_get_uuid (o : Op) : Src.getUuid o = o.uuid? := src_getUuid_eq o
 
 end Tc
